@@ -138,6 +138,272 @@ theorem block_terminates_sound (fuel : Nat) (b : List (Stmt F)) (st st' : St F) 
     (hb : blockTerms b = true) (h : execStmts ops ext prog fuel b st = .ok c st') : c ≠ .normal :=
   (terminating_never_normal ops ext prog fuel).2.1 b st c st' hb h
 
+/-! ### a function with a return type always returns a value -/
+
+/-- how a statement inside such a body can complete: `break` only if inside a loop, `return` only
+with a value -/
+def Compl (inLoop : Bool) (c : Completion F) : Prop :=
+  (c = .brk → inLoop = true) ∧ ∀ v, c = .ret v → v.isSome = true
+
+theorem Compl.normal (il : Bool) : Compl il (.normal : Completion F) := ⟨(by intro h; cases h), (by intro v h; cases h)⟩
+theorem Compl.weaken {il : Bool} {c : Completion F} (h : Compl false c) : Compl il c :=
+  ⟨fun e => absurd (h.1 e) (by simp), h.2⟩
+
+theorem for_tail_ok (n : Nat) (lv : Str) (body : List (Stmt F)) (rr : Res F (Ranger F)) (c : Completion F) (st' : St F)
+    (h : (match rr with
+      | .err o s => (.err o (popScope s) : Res F (Completion F))
+      | .ok r s =>
+        match execForLoop ops ext prog n lv r body s with
+        | .err o s' => .err o (popScope s')
+        | .ok c s' => .ok c (popScope s')) = .ok c st') :
+    ∃ r s s', execForLoop ops ext prog n lv r body s = .ok c s' := by
+  cases rr with
+  | err o s => simp at h
+  | ok r s =>
+    simp only at h
+    cases hx : execForLoop ops ext prog n lv r body s with
+    | err o s' => simp [hx] at h
+    | ok c' s' => simp [hx] at h; exact ⟨r, s, s', by rw [hx, h.1]⟩
+
+theorem fn_completions (fuel : Nat) :
+    (∀ (il : Bool) (s : Stmt F) st c st', fnOkS il s = true → execS ops ext prog fuel s st = .ok c st' → Compl il c) ∧
+    (∀ (il : Bool) (b : List (Stmt F)) st c st', fnOkB il b = true → execStmts ops ext prog fuel b st = .ok c st' → Compl il c) ∧
+    (∀ (il : Bool) (b : List (Stmt F)) st c st', fnOkB il b = true → execBlockNode ops ext prog fuel b st = .ok c st' → Compl il c) ∧
+    (∀ (il : Bool) (cond : Expr F) (b : List (Stmt F)) st c t st', fnOkB il b = true →
+        execCond ops ext prog fuel cond b st = .ok (c, t) st' → Compl il c) ∧
+    (∀ (il : Bool) (conds : List (Expr F × List (Stmt F))) (e : Option (List (Stmt F))) st c st',
+        fnOkConds il conds = true → (∀ b, e = some b → fnOkB il b = true) →
+        execIfChain ops ext prog fuel conds e st = .ok c st' → Compl il c) ∧
+    (∀ (cond : Expr F) (b : List (Stmt F)) st c st', fnOkB true b = true →
+        execWhile ops ext prog fuel cond b st = .ok c st' → Compl false c) ∧
+    (∀ (lv : Str) (r : Ranger F) (b : List (Stmt F)) st c st', fnOkB true b = true →
+        execForLoop ops ext prog fuel lv r b st = .ok c st' → Compl false c) := by
+  induction fuel with
+  | zero =>
+    refine ⟨?_, ?_, ?_, ?_, ?_, ?_, ?_⟩ <;> intros <;>
+      simp_all [execS, execStmts, execBlockNode, execCond, execIfChain, execWhile, execForLoop]
+  | succ n ih =>
+    obtain ⟨ih1, ih2, ih3, ih4, ih5, ih6, ih7⟩ := ih
+    refine ⟨?_, ?_, ?_, ?_, ?_, ?_, ?_⟩
+    · -- one statement
+      intro il s st c st' hs h
+      unfold execS at h
+      cases ht : tick st with
+      | none => simp [ht] at h
+      | some st1 =>
+        simp only [ht] at h
+        cases s with
+        | noop => simp at h; rw [← h.1]; exact Compl.normal il
+        | brk =>
+          simp at h; rw [← h.1]
+          simp only [fnOkS] at hs
+          exact ⟨fun _ => hs, (by intro v e; cases e)⟩
+        | decl name value =>
+          simp only at h
+          cases he : evalE ops ext prog n value st1 with
+          | err o s2 => simp [he] at h
+          | ok v s2 => simp [he] at h; rw [← h.1]; exact Compl.normal il
+        | callS e =>
+          cases e with
+          | call name args =>
+            simp only at h
+            cases hc : evalCall ops ext prog n name args st1 with
+            | err o s2 => simp [hc] at h
+            | ok v s2 => simp [hc] at h; rw [← h.1]; exact Compl.normal il
+          | _ => simp at h
+        | ret v =>
+          cases v with
+          | none => simp [fnOkS] at hs
+          | some e =>
+            simp only at h
+            cases he : evalE ops ext prog n e st1 with
+            | err o s2 => simp [he] at h
+            | ok v s2 =>
+              simp [he] at h; rw [← h.1]
+              exact ⟨(by intro e; cases e), (by intro w e; cases e; rfl)⟩
+        | ifS conds els =>
+          simp only at h
+          cases els with
+          | none =>
+            simp only [fnOkS, Bool.and_eq_true] at hs
+            exact ih5 il conds none st1 c st' hs.1 (by intro b hb; cases hb) h
+          | some e =>
+            simp only [fnOkS, Bool.and_eq_true] at hs
+            exact ih5 il conds (some e) st1 c st' hs.1 (by intro b hb; cases hb; exact hs.2) h
+        | whileS cnd body =>
+          simp only [fnOkS] at hs
+          simp only at h
+          exact (ih6 cnd body st1 c st' hs h).weaken
+        | assign target value =>
+          -- an assignment completes normally or fails
+          have : c = .normal := by
+            simp only at h
+            cases he : evalE ops ext prog n value st1 with
+            | err o s2 => simp [he] at h
+            | ok v s2 =>
+              simp only [he] at h
+              cases target with
+              | var nm =>
+                simp only at h
+                cases hu : updateVar s2 nm v with
+                | none => simp [hu] at h
+                | some s3 => simp [hu] at h; exact h.1.symm
+              | index l i =>
+                simp only at h
+                cases hl : evalE ops ext prog n l s2 with
+                | err o s3 => simp [hl] at h
+                | ok left s3 =>
+                  simp only [hl] at h
+                  cases hi : evalE ops ext prog n i s3 with
+                  | err o s4 => simp [hi] at h
+                  | ok idx s4 =>
+                    simp only [hi] at h
+                    repeat' split at h
+                    all_goals first | (simp at h; exact h.1.symm) | (simp at h)
+              | dot l key =>
+                simp only at h
+                cases hl : evalE ops ext prog n l s2 with
+                | err o s3 => simp [hl] at h
+                | ok left s3 =>
+                  simp only [hl] at h
+                  repeat' split at h
+                  all_goals first | (simp at h; exact h.1.symm) | (simp at h)
+              | _ => simp at h
+          rw [this]; exact Compl.normal il
+        | forS lvOpt lvTy range body =>
+          simp only [fnOkS] at hs
+          simp only at h
+          obtain ⟨r, s, s', hx⟩ := for_tail_ok ops ext prog n _ body _ c st' h
+          exact (ih7 _ r body s c s' hs hx).weaken
+    · -- a statement list
+      intro il b st c st' hb h
+      cases b with
+      | nil => simp [execStmts] at h; rw [← h.1]; exact Compl.normal il
+      | cons s rest =>
+        simp only [fnOkB, Bool.and_eq_true] at hb
+        unfold execStmts at h
+        cases hs : execS ops ext prog n s st with
+        | err o s2 => simp [hs] at h
+        | ok c1 s2 =>
+          have g := ih1 il s st c1 s2 hb.1 hs
+          cases c1 with
+          | normal => simp only [hs] at h; exact ih2 il rest s2 c st' hb.2 h
+          | brk => simp [hs] at h; rw [← h.1]; exact g
+          | ret v => simp [hs] at h; rw [← h.1]; exact g
+    · -- a block node
+      intro il b st c st' hb h
+      unfold execBlockNode at h
+      cases ht : tick st with
+      | none => simp [ht] at h
+      | some st1 => simp only [ht] at h; exact ih2 il b st1 c st' hb h
+    · -- a conditional block
+      intro il cond b st c t st' hb h
+      unfold execCond at h
+      simp only at h
+      cases he : evalE ops ext prog n cond (pushScope st) with
+      | err o s2 => simp [he] at h
+      | ok v s2 =>
+        simp only [he] at h
+        cases v with
+        | bool bv =>
+          cases bv with
+          | true =>
+            simp only at h
+            cases hx : execBlockNode ops ext prog n b s2 with
+            | err o s3 => simp [hx] at h
+            | ok c3 s3 =>
+              simp [hx] at h
+              rw [← h.1.1]
+              exact ih3 il b s2 c3 s3 hb hx
+          | false => simp at h; rw [← h.1.1]; exact Compl.normal il
+        | _ => simp at h
+    · -- the if chain
+      intro il conds e st c st' hc he h
+      cases conds with
+      | nil =>
+        unfold execIfChain at h
+        cases e with
+        | none => simp at h; rw [← h.1]; exact Compl.normal il
+        | some body =>
+          simp only at h
+          cases hx : execBlockNode ops ext prog n body (pushScope st) with
+          | err o s3 => simp [hx] at h
+          | ok c3 s3 =>
+            simp [hx] at h
+            rw [← h.1]
+            exact ih3 il body _ c3 s3 (he body rfl) hx
+      | cons cb rest =>
+        obtain ⟨cnd, body⟩ := cb
+        simp only [fnOkConds, Bool.and_eq_true] at hc
+        unfold execIfChain at h
+        cases hx : execCond ops ext prog n cnd body st with
+        | err o s3 => simp [hx] at h
+        | ok r s3 =>
+          obtain ⟨comp, taken⟩ := r
+          cases taken with
+          | true =>
+            simp [hx] at h
+            rw [← h.1]
+            exact ih4 il cnd body st comp true s3 hc.1 hx
+          | false =>
+            simp only [hx] at h
+            exact ih5 il rest e s3 c st' hc.2 he h
+    · -- while: a break ends the loop, a return passes through
+      intro cond b st c st' hb h
+      unfold execWhile at h
+      cases hx : execCond ops ext prog n cond b st with
+      | err o s3 => simp [hx] at h
+      | ok r s3 =>
+        obtain ⟨comp, taken⟩ := r
+        have g := ih4 true cond b st comp taken s3 hb hx
+        cases taken with
+        | false => simp [hx] at h; rw [← h.1]; exact Compl.normal false
+        | true =>
+          cases comp with
+          | brk => simp [hx] at h; rw [← h.1]; exact Compl.normal false
+          | ret v =>
+            simp [hx] at h; rw [← h.1]
+            exact ⟨(by intro e; cases e), g.2⟩
+          | normal => simp only [hx] at h; exact ih6 cond b s3 c st' hb h
+    · -- for
+      intro lv r b st c st' hb h
+      unfold execForLoop at h
+      cases hn : rangerNext ops st r with
+      | none => simp [hn] at h; rw [← h.1]; exact Compl.normal false
+      | some p =>
+        obtain ⟨v, r'⟩ := p
+        simp only [hn] at h
+        cases hu : updateVar st lv v with
+        | none => simp [hu] at h
+        | some st1 =>
+          simp only [hu] at h
+          cases hx : execBlockNode ops ext prog n b (pushScope st1) with
+          | err o s2 => simp [hx] at h
+          | ok comp s2 =>
+            have g := ih3 true b _ comp s2 hb hx
+            cases comp with
+            | brk => simp [hx] at h; rw [← h.1]; exact Compl.normal false
+            | ret rv =>
+              simp [hx] at h; rw [← h.1]
+              exact ⟨(by intro e; cases e), g.2⟩
+            | normal => simp only [hx] at h; exact ih7 lv r' b _ c st' hb h
+
+/-- **soundness of "missing return"**: a function body that the parser accepts for a function with a
+return type — it always terminates, breaks only inside loops, returns only values — can only end by
+returning a value (or by failing): it never falls off its end and never returns nothing -/
+theorem typed_function_returns_a_value (fuel : Nat) (body : List (Stmt F)) (st st' : St F) (c : Completion F)
+    (ht : blockTerms body = true) (hf : fnOkB false body = true)
+    (h : execBlockNode ops ext prog fuel body st = .ok c st') : ∃ v, c = .ret (some v) := by
+  have h1 := (terminating_never_normal ops ext prog fuel).2.2.1 body st c st' ht h
+  have h2 := (fn_completions ops ext prog fuel).2.2.1 false body st c st' hf h
+  cases c with
+  | normal => exact absurd rfl h1
+  | brk => exact absurd (h2.1 rfl) (by simp)
+  | ret v =>
+    cases v with
+    | none => exact absurd (h2.2 none rfl) (by simp)
+    | some w => exact ⟨w, rfl⟩
+
 /-! ### nothing of a rejected program runs: the entry point parses first and returns on error -/
 
 theorem run_parses_first :
@@ -159,5 +425,7 @@ example : blockTerms ([.decl ['x'] (.num (1 : Int)), .ifS [(.bool true, [.ret no
   decide
 example : blockTerms ([.ifS [(.bool true, [.ret none])] none] : List (Stmt Int)) = false := by decide
 example : blockTerms ([.whileS (.bool true) [.ret none]] : List (Stmt Int)) = false := by decide
+example : fnOkB false ([.whileS (.bool true) [.brk], .ifS [(.bool true, [.ret (some (.num (1 : Int)))])] (some [.ret (some (.num 2))])] : List (Stmt Int)) = true ∧
+    blockTerms ([.whileS (.bool true) [.brk], .ifS [(.bool true, [.ret (some (.num (1 : Int)))])] (some [.ret (some (.num 2))])] : List (Stmt Int)) = true := by decide
 
 end EvyV.C05
